@@ -410,3 +410,36 @@ func init() {
 	intrinsics["vfMatchResult"] = reField(2)
 	intrinsics["vfMatchErr"] = reField(3)
 }
+
+// memberlist lifecycle calls: recorded, arbitrary results (err symbolic; Join count symbolic >= 0)
+func init() {
+	ml := "(*github.com/hashicorp/memberlist.Memberlist)."
+	symErr := func(p *Path, what string) Value {
+		e := p.newInput("ml."+what+".err", BoolSort)
+		if p.Branch(e) {
+			return p.errorValue(p.e.strOf("memberlist " + what + " failed (stub)"))
+		}
+		return Iface{}
+	}
+	externals[ml+"Join"] = func(p *Path, fr *frame, a []Value) Value {
+		p.yield(fr, nil, "ml.Join")
+		p.logs["ml.Join"] = append(p.logs["ml.Join"], a[1])
+		ts := p.e.ts
+		n := p.newInput("ml.Join.n", BVSort(64))
+		p.assumeQuiet(ts.And(ts.BVCmp("bvsge", n, ts.BV(64, 0)), ts.BVCmp("bvsle", n, ts.BV(64, 8))))
+		return Tuple{n, symErr(p, "Join")}
+	}
+	externals[ml+"Leave"] = func(p *Path, fr *frame, a []Value) Value {
+		p.yield(fr, nil, "ml.Leave")
+		p.logs["ml.Leave"] = append(p.logs["ml.Leave"], a[1])
+		return symErr(p, "Leave")
+	}
+	externals[ml+"Shutdown"] = func(p *Path, fr *frame, a []Value) Value {
+		p.yield(fr, nil, "ml.Shutdown")
+		p.logs["ml.Shutdown"] = append(p.logs["ml.Shutdown"], p.e.ts.True)
+		return symErr(p, "Shutdown")
+	}
+	intrinsics["vfStubCalls"] = func(p *Path, fr *frame, a []Value) Value {
+		return p.e.ts.BV(64, uint64(len(p.logs["ml."+concStr(a[0])])))
+	}
+}
